@@ -110,6 +110,25 @@ impl<C, T, E> EntryShape<T> for for<'a> unsafe extern "C" fn(&'a C, bool) -> CRe
     }
 }
 
+impl<C, T, E> EntryShape<T> for for<'a> unsafe extern "C" fn(&'a C, bool) -> Result<T, E> {
+    unsafe fn call_int_coded(self, _cont: *const u8, _flag: bool, _slot: &mut MaybeUninit<T>) -> Option<i32> {
+        None
+    }
+}
+
+/// one-parameter result alias
+pub type IoRes<T> = Result<T, std::io::Error>;
+#[cglue_trait]
+#[int_result(IoRes)]
+pub trait IRB {
+    fn irb(&self, fail: bool) -> IoRes<u32>;
+}
+impl IRB for R {
+    fn irb(&self, fail: bool) -> IoRes<u32> {
+        if fail { Err(std::io::Error::from_raw_os_error(5)) } else { Ok(self.k as u32 ^ 9) }
+    }
+}
+
 /// Drive one entry: integer-coded iff `expect_int`; 0 exactly for Ok; slot written iff Ok.
 fn drive_entry<F: EntryShape<T>, T: Copy + PartialEq>(f: F, cont: *const u8, fail: bool, sentinel: T, ok_val: T, expect_int: bool) {
     let mut out = MaybeUninit::<T>::uninit();
@@ -154,6 +173,18 @@ nd::harnesses! {
             let vm: &IRMVtbl<_> = m.get_vtbl_base();
             let (_, cont) = c_view(&m, vm, 1, 2);
             drive_entry(vm.irm_cres(), cont, fail, s32, 2, false);
+        }
+        {
+            let b = trait_obj!(&twin as IRB);
+            let vb: &IRBVtbl<_> = b.get_vtbl_base();
+            let (_, cont) = c_view(&b, vb, 0, 1);
+            drive_entry(vb.irb(), cont, fail, s32, k as u32 ^ 9, true);
+            let r = b.irb(fail);
+            match &r {
+                Ok(v) => assert!(!fail && *v == k as u32 ^ 9),
+                Err(e) => assert!(fail && e.raw_os_error() == Some(5)),
+            }
+            core::mem::forget(r);
         }
     }
 
